@@ -33,6 +33,17 @@ def check_c09(case, ctx):
     s = sum(p)
     if abs(s - 1.0) > n * 1e-13:
         raise Violation("sum", f"{kind}: predict_win sums to {s!r} ({p})")
+    # ids and names are not part of a rating's value (clones of one template rating share its id)
+    m_same = mk_model(cfg)
+    objs = mk_teams(m_same, teams)
+    for t in objs:
+        for pl in t:
+            pl.id = "shared-id"
+            pl.name = "clone"
+    ctx.called()
+    p_same = guarded(m_same.predict_win, objs, what="predict_win (shared ids)")
+    if p_same != p:
+        raise Violation("depends-on-ids", f"{kind}: predict_win = {p!r}, but {p_same!r} when all ratings carry the same id")
     # permutation
     perm = case["perm"]
     p2 = pw(cfg, [teams[k] for k in perm], ctx)
